@@ -753,6 +753,42 @@ pub fn build_locals(params: usize, decl: &[u8], used: u32, grouped: bool) -> Vec
     mb.build()
 }
 
+/// the same module with a name section naming the function, every parameter and every declared local
+pub fn build_locals_named(params: usize, decl: &[u8], used: u32, grouped: bool) -> Vec<u8> {
+    let mut w = build_locals(params, decl, used, grouped);
+    let names: Vec<String> = (0..params + decl.len()).map(|i| format!("L{}", i)).collect();
+    let entries: Vec<(u32, &str)> = names.iter().enumerate().map(|(i, n)| (i as u32, n.as_str())).collect();
+    let payload = name_section(&[(1, name_map(&[(0, "the_function")])), (2, indirect_name_map(&[(0, entries)]))]);
+    append_custom(&mut w, "name", &payload);
+    w
+}
+
+pub fn locals_named_family() -> Vec<Member> {
+    let tys = [I32, I64, F32, EXTERNREF];
+    let mut out = vec![];
+    for params in 0..=2usize {
+        for n in 1..=3usize {
+            let total = tys.len().pow(n as u32);
+            for code in 0..total {
+                let mut decl = vec![];
+                let mut c = code;
+                for _ in 0..n {
+                    decl.push(tys[c % 4]);
+                    c /= 4;
+                }
+                for used in 0..(1u32 << n) {
+                    out.push(Member {
+                        family: "locals-named",
+                        coords: format!("params={},decl={:?},used={:b}", params, decl, used),
+                        wasm: build_locals_named(params, &decl, used, false),
+                    });
+                }
+            }
+        }
+    }
+    out
+}
+
 pub fn locals_family() -> Vec<Member> {
     let tys = [I32, I64, F32, EXTERNREF];
     let mut out = vec![];
